@@ -251,7 +251,14 @@ async fn body(seed: u64) -> Out {
     }
     tokio::time::sleep(Duration::from_millis(5)).await;
     let churn = p.chance(1, 2);
-    let npre = if churn { *p.pick(&[50u64, 400, 1500]) } else { 0 };
+    // (the relay's fragmentation regime is drawn here already: a large initial sync through a relay that forwards 1-9 bytes at a time
+    // would only produce 'not ready within the bound' = inconclusive scenarios)
+    let frag = *p.pick(&[0u64, 3, 9, 64]);
+    let mode = p.below(5); // 0 single, 1 both sides dial at once, 2 A dials twice, 3/4 through a cuttable relay
+    // (a relayed link is slow: the membership traffic of a big churn would saturate it for seconds and every call would time out)
+    let relayed_link = mode >= 3;
+    let npre = if !churn { 0 } else if relayed_link { if frag == 3 || frag == 9 { 20 } else { 100 } } else { *p.pick(&[50u64, 400, 1500]) };
+    let fresh_cap = if relayed_link { 150u64 } else { 3000 };
     for g in 0..npre {
         ractor::pg::join_scoped(format!("tcpm-{tag}"), format!("pre-{g}"), vec![targets[0].actor.get_cell()]);
     }
@@ -260,7 +267,7 @@ async fn body(seed: u64) -> Out {
         let (cell, stop, tagc) = (targets[1 % targets.len()].actor.get_cell(), churn_stop.clone(), tag.clone());
         Some(std::thread::spawn(move || {
             let mut k = 0u64;
-            while !stop.load(Ordering::SeqCst) && k < 3000 {
+            while !stop.load(Ordering::SeqCst) && k < fresh_cap {
                 ractor::pg::join_scoped(format!("tcpm-{tagc}"), format!("fresh-{k}"), vec![cell.clone()]);
                 k += 1;
                 std::thread::sleep(Duration::from_micros(30));
@@ -349,7 +356,6 @@ async fn body(seed: u64) -> Out {
 
     dbg("spoofer dialled");
     // ---- the legitimate link(s)
-    let mode = p.below(5); // 0 single, 1 both sides dial at once, 2 A dials twice, 3/4 through a cuttable relay
     let cut = Arc::new(AtomicBool::new(false));
     let relayed = Arc::new(AtomicU64::new(0));
     let mut dial_ok = true;
@@ -363,7 +369,7 @@ async fn body(seed: u64) -> Out {
             let (r1, r2) = tokio::join!(ractor_cluster::client_connect(&a.server, ("127.0.0.1", b.port)), ractor_cluster::client_connect(&a.server, ("127.0.0.1", b.port)));
             dial_ok &= r1.is_ok() || r2.is_ok();
         }
-        _ => match relay(b.port, cut.clone(), relayed.clone(), *p.pick(&[0u64, 3, 9, 64]), seed).await {
+        _ => match relay(b.port, cut.clone(), relayed.clone(), frag, seed).await {
             Some(rp) => dial_ok &= ractor_cluster::client_connect(&a.server, ("127.0.0.1", rp)).await.is_ok(),
             None => dial_ok = false,
         },
@@ -396,7 +402,7 @@ async fn body(seed: u64) -> Out {
             };
             let fr: ActorRef<RMsg> = fpx.into();
             // fence: the peer answers this call only after it has announced every earlier join, and this session reads the reply after them
-            if !matches!(fr.call(|reply| RMsg::Ask(9997, 1, 0, reply), Some(Duration::from_secs(20))).await, Ok(CallResult::Success(_))) {
+            if !matches!(fr.call(|reply| RMsg::Ask(9997, 1, 0, reply), Some(Duration::from_secs(8))).await, Ok(CallResult::Success(_))) {
                 continue;
             }
             *c.entry("membership_fences").or_default() += 1;
@@ -413,6 +419,7 @@ async fn body(seed: u64) -> Out {
             }
         }
     }
+    dbg("membership fences done");
     let mut lanes_res: Vec<LaneRes> = vec![];
     let mut did_cut = false;
     let mut samples = 0u64;
@@ -458,6 +465,8 @@ async fn body(seed: u64) -> Out {
             let ses = sessions[p.below(sessions.len() as u64) as usize].clone();
             let mut q = p.fork();
             let on_thread = q.chance(1, 3);
+            // through a relay that forwards 1-9 bytes per write, keep the volume small (a few short frames still cross every boundary)
+            let heavy = mode >= 3 && (frag == 3 || frag == 9);
             let fut = async move {
                 let mut res = LaneRes { lane, target: ti, sent: vec![], fence_handled: false, calls: vec![], send_failed: None };
                 let mut cell: Option<ActorCell> = None;
@@ -473,13 +482,13 @@ async fn body(seed: u64) -> Out {
                     return res;
                 };
                 let typed: ActorRef<RMsg> = cell.clone().into();
-                let n = 5 + q.below(60);
+                let n = if heavy { 3 + q.below(8) } else { 5 + q.below(60) };
                 let mut seq = 0u64;
                 for _ in 0..n {
                     seq += 1;
                     match q.below(10) {
                         0..=6 => {
-                            let (msg, variant, dg) = if q.chance(1, 3) {
+                            let (msg, variant, dg) = if heavy || q.chance(1, 3) {
                                 let t = text(lane, seq);
                                 let d = digest(t.as_bytes());
                                 (RMsg::Named { lane, seq, text: t }, 1u8, d)
@@ -499,7 +508,7 @@ async fn body(seed: u64) -> Out {
                         _ => {
                             let mode = *q.pick(&[0u8, 0, 1, 3]);
                             // a dropped reply port is not reported over the wire: the remote caller learns of it at its own timeout
-                            let to = if mode == 3 { Duration::from_millis(20 + q.below(30)) } else { Duration::from_secs(20) };
+                            let to = if mode == 3 { Duration::from_millis(20 + q.below(30)) } else { Duration::from_secs(6) };
                             let r = typed.call(|reply| RMsg::Ask(lane, seq, mode, reply), Some(to)).await;
                             let o = match r {
                                 Ok(CallResult::Success(x)) => Ok(x),
@@ -517,11 +526,12 @@ async fn body(seed: u64) -> Out {
                 }
                 // fence: a prompt call after everything else on this lane, through the same proxy
                 seq += 1;
-                if let Ok(CallResult::Success(x)) = typed.call(|reply| RMsg::Ask(lane, seq, 0, reply), Some(Duration::from_secs(30))).await {
+                if let Ok(CallResult::Success(x)) = typed.call(|reply| RMsg::Ask(lane, seq, 0, reply), Some(Duration::from_secs(8))).await {
                     res.fence_handled = true;
                     res.calls.push((seq, 0, Ok(x)));
                 }
                 let _ = uid;
+                dbg(&format!("lane {lane} done: sent {} calls {} fence {}", res.sent.len(), res.calls.len(), res.fence_handled));
                 res
             };
             if on_thread {
@@ -538,7 +548,7 @@ async fn body(seed: u64) -> Out {
         // stops; afterwards a *fence* call through another proxy of the same session is answered by the hosting node only after that
         // node's session has handled X's exit event (supervision outranks messages) and written its Terminate frame, and the reply is
         // read by this side's session only after that frame: so once the fence is answered, X's proxy must at least have been asked to stop
-        if p.chance(1, 2) && !sessions.is_empty() {
+        if !sessions.is_empty() {
             let ses = sessions[p.below(sessions.len() as u64) as usize].clone();
             let mut px = None;
             for _ in 0..400 {
@@ -552,10 +562,12 @@ async fn body(seed: u64) -> Out {
             if let (Some(px), Some(fpx)) = (px, fence_px) {
                 let stop_flag = Arc::new(AtomicBool::new(false));
                 let (sf, pxc) = (stop_flag.clone(), px.clone());
+                // (through a fragmenting relay every frame costs many small writes: keep the burst short there, the fence queues behind it)
+                let burst_cap = if mode >= 3 && frag > 0 { 600u64 } else { 200_000 };
                 let burst = tokio::spawn(async move {
                     let typed: ActorRef<RMsg> = pxc.into();
                     let mut k = 0u64;
-                    while !sf.load(Ordering::SeqCst) && k < 200_000 {
+                    while !sf.load(Ordering::SeqCst) && k < burst_cap {
                         k += 1;
                         if typed.cast(RMsg::Note(9999, k, vec![1, 2, 3])).is_err() {
                             break;
@@ -572,7 +584,7 @@ async fn body(seed: u64) -> Out {
                     let _ = tokio::time::timeout(Duration::from_secs(40), h).await;
                 }
                 let fr: ActorRef<RMsg> = fpx.into();
-                let fenced = matches!(fr.call(|reply| RMsg::Ask(9998, 1, 0, reply), Some(Duration::from_secs(20))).await, Ok(CallResult::Success(_)));
+                let fenced = matches!(fr.call(|reply| RMsg::Ask(9998, 1, 0, reply), Some(Duration::from_secs(8))).await, Ok(CallResult::Success(_)));
                 stop_flag.store(true, Ordering::SeqCst);
                 let sent = burst.await.unwrap_or(0);
                 *c.entry("exit_under_load_casts").or_default() += sent;
@@ -584,6 +596,7 @@ async fn body(seed: u64) -> Out {
                 }
             }
         }
+        dbg("exit-under-load done");
         // optional cut while the lanes are running
         if mode >= 3 && p.chance(1, 2) {
             tokio::time::sleep(Duration::from_millis(p.below(40))).await;
@@ -687,7 +700,7 @@ async fn body(seed: u64) -> Out {
             }
             if let Err(e) = o {
                 if !did_cut && e == "timeout" && *mode != 3 {
-                    *c.entry("answered_calls_timed_out_20s(inconclusive)").or_default() += 1;
+                    *c.entry("answered_calls_timed_out(inconclusive)").or_default() += 1;
                 }
             }
         }
